@@ -67,7 +67,7 @@ fn show_hint(h: Option<H>) -> String {
 
 // ------------------------------------------------------------------ machines
 
-trait Machine {
+pub trait Machine {
     fn poll(&mut self) -> Ans;
     fn hint(&self) -> Option<H>;
 }
@@ -90,7 +90,7 @@ where
         Some(self.0.size_hint())
     }
 }
-fn pm<P>(p: P) -> Box<dyn Machine>
+pub fn pm<P>(p: P) -> Box<dyn Machine>
 where
     P: Pull + 'static,
     P::Item: Show,
